@@ -437,8 +437,27 @@ func (it *Interp) concretize(v Int, max int, why string) uint64 {
 		}
 	}
 	if !complete {
+		// the domain is sampled: make sure the three smallest feasible values are among the samples (small counts
+		// and sizes are the ones for which a structure fits into a small image, so that its loops and recursions
+		// are entered); each is found by bisection on an upper bound
+		have := map[int]bool{}
+		for _, x := range vals {
+			have[x] = true
+		}
+		lower := it.ctx.True()
+		for k := 0; k < 3; k++ {
+			m, ok := it.minFeasible(v.T, w, lower)
+			if !ok {
+				break
+			}
+			if !have[int(m)] {
+				have[int(m)] = true
+				vals = append(vals, int(m))
+			}
+			lower = it.ctx.Cmp("bvugt", v.T, it.ctx.BV(w, m))
+		}
 		if it.sizeSampling {
-			it.res.Bounds["size_fields_sampled_at_most"] = max
+			it.res.Bounds["size_fields_sampled_at_most"] = max + 3
 		} else {
 			it.noteIncomplete(fmt.Sprintf("concretisation of %s kept %d values, more are feasible", why, len(vals)))
 		}
@@ -456,6 +475,36 @@ func (it *Interp) concretize(v Int, max int, why string) uint64 {
 	it.addPC(it.ctx.Eq(v.T, it.ctx.BV(w, uint64(vals[0]))))
 	it.learnPins(len(it.decisions)-1, 0, v.T)
 	return uint64(vals[0])
+}
+
+// minFeasible returns the smallest value of t (unsigned) that satisfies the path condition and extra.
+func (it *Interp) minFeasible(t *sym.Term, w int, extra *sym.Term) (uint64, bool) {
+	value := func(c *sym.Term) (uint64, bool) {
+		if it.sol.CheckWith(c) != sym.Sat {
+			it.sol.ReleaseModel()
+			return 0, false
+		}
+		m, err := it.sol.Values([]*sym.Term{t})
+		it.sol.ReleaseModel()
+		if err != nil {
+			return 0, false
+		}
+		return m[t.ID], true
+	}
+	hi, ok := value(extra)
+	if !ok {
+		return 0, false
+	}
+	lo := uint64(0)
+	for lo < hi {
+		mid := lo + (hi-lo)/2
+		if x, ok := value(it.ctx.And(extra, it.ctx.Cmp("bvule", t, it.ctx.BV(w, mid)))); ok {
+			hi = x
+		} else {
+			lo = mid + 1
+		}
+	}
+	return hi, true
 }
 
 // learnPins: after a term has been fixed to one of its values, the (few) inputs it is built from are often forced as
